@@ -15,8 +15,10 @@
 package main
 
 import (
+	"bytes"
 	"fmt"
 	"io"
+	"sort"
 	"strings"
 
 	"github.com/openconfig/goyang/pkg/indent"
@@ -47,8 +49,16 @@ func doTypes(w io.Writer, entries []*yang.Entry) {
 		types.AddEntry(e)
 	}
 
+	// Print the types in a reproducible order, not in map order.
+	var lines []string
 	for t := range types {
-		printType(w, t, typesVerbose)
+		var b bytes.Buffer
+		printType(&b, t, typesVerbose)
+		lines = append(lines, b.String())
+	}
+	sort.Strings(lines)
+	for _, l := range lines {
+		io.WriteString(w, l)
 	}
 	if typesDebug {
 		for _, e := range entries {
